@@ -61,3 +61,13 @@ Proof. split; [vm_compute; reflexivity|eexists; vm_compute; reflexivity]. Qed.
 
 Print Assumptions C10_lower_scoped.
 Print Assumptions C10_local_fresh.
+
+(* ---- source tie: the hand-written model behind these theorems mirrors the files below; the digests of their
+   functions regenerated from /repo on this run equal the reviewed ones (coq/Doc/DocSrcDigest.v).  Any edit of
+   such a function breaks this obligation: the differential tie and the oracle then decide (tools/check.py). *)
+From Sylt Require Doc.SrcDigest Doc.DocSrcDigest Gen.GenSrcDigest.
+Theorem C10_model_sources_reviewed :
+  Sylt.Doc.SrcDigest.sources_reviewed ["sylt-compiler/src/intermediate.rs"%string; "sylt-compiler/src/lua.rs"%string]
+    Sylt.Doc.DocSrcDigest.doc_src_digests Sylt.Gen.GenSrcDigest.src_digests = true.
+Proof. vm_compute. reflexivity. Qed.
+Print Assumptions C10_model_sources_reviewed.
